@@ -42,7 +42,7 @@ func genC11(c *Ctx) {
 	p.depth2(c)
 	// phase 2: seeded random, half three-way pipelines, half ordinary queries
 	g := &qgen{r: c.Rng}
-	n := c.Pick(6000, 120000)
+	n := c.Pick(40000, 600000)
 	for i := 0; i < n; i++ {
 		var text string
 		var nonconf bool
